@@ -62,9 +62,12 @@ MANDATORY_CLASSES = ["brew"]
 def build(case, rng, d):
     tabs, paths = [], []
     nsp = int(rng.integers(40, 90)) * case["folds"] if not case.get("big") else 4000
+    # runs of different spectra that agree in every key column but the last (charge hypotheses of one scan)
+    share = float(rng.choice([0.0, 0.0, 0.5, 0.8]))
     for fi in range(case["nfiles"]):
         tab = psm.psm_table(rng, n_spectra=nsp, mult_max=int(rng.integers(2, 5)), n_files=2 if "filename" in case["keys"] else 1,
-                            key_cols=tuple(case["keys"]) , file_index=fi, label_enc="01", ties=bool(case["index"] % 7 == 3))
+                            key_cols=tuple(case["keys"]) , file_index=fi, label_enc="01", ties=bool(case["index"] % 7 == 3),
+                            share_scan=share)
         tabs.append(tab)
         if case["fmt"] == "parquet":
             paths.append(psm.write_parquet(tab, d / f"f{fi}.parquet", row_group_size=int(rng.integers(5, 400))))
